@@ -187,7 +187,9 @@ theorem deEventsAt_err : ∀ (q : List QEv) (d : Nat), QEv.err ∈ q → ∃ l e
       obtain ⟨l, e, hl⟩ := ih (by simpa using h) d
       by_cases hc : d = 0 ∧ raw.all isWs = false
       · exact ⟨[], .invalidContent, by simp [deEventsAt, hc]⟩
-      · exact ⟨.text raw :: l, e, by simp only [deEventsAt, if_neg hc, hl, List.cons_append]⟩
+      · by_cases hce : hasCdataEnd raw = true
+        · exact ⟨[], .invalidContent, by simp [deEventsAt, hc, hce]⟩
+        · exact ⟨.text raw :: l, e, by simp only [deEventsAt, if_neg hc, if_neg hce, hl, List.cons_append]⟩
     | cdata c =>
       obtain ⟨l, e, hl⟩ := ih (by simpa using h) d
       by_cases hc : d = 0
